@@ -128,11 +128,11 @@ Proof.
       rewrite M. reflexivity.
 Qed.
 
-(* the exit status of the model, without any reference to names, maps or orders *)
+(* the exit status of the model, without any reference to names, maps or orders: it is the specification's *)
 Lemma job_exit_characterised_lemma : forall j : rj_job,
   rjs_wf j ->
   rj_exit j = if existsb rj_fatal (rjs_inputs j) then 2
-              else if existsb rj_warn (rj_attach j ++ rj_uo j ++ rj_pages j ++ rj_opt (rj_main j)) then 3
+              else if existsb rj_warn (rjs_inputs j) then 3
               else 0.
 Proof.
   intros j Hwf. unfold rj_exit, rjs_inputs.
@@ -144,35 +144,27 @@ Proof.
   destruct (existsb rj_warn (rj_opt (rj_main j))), (existsb rj_warn (rj_secondary j)),
            (existsb rj_warn (rj_pages j)); simpl in KW; try discriminate KW;
   destruct (existsb rj_fatal (rj_uo j)), (existsb rj_fatal (rj_attach j)), (existsb rj_fatal (rj_opt (rj_enc j))),
-           (existsb rj_warn (rj_uo j)), (existsb rj_warn (rj_attach j)); reflexivity.
+           (existsb rj_warn (rj_uo j)), (existsb rj_warn (rj_attach j)), (existsb rj_warn (rj_opt (rj_enc j))); reflexivity.
 Qed.
 
-(* the model meets the specification for every job whose --copy-encryption file (if any) raised no warning *)
-Lemma job_exit_meets_spec_partial_lemma : forall j : rj_job,
-  rjs_wf j -> (forall e, rj_enc j = Some e -> rj_warn e = false) -> rj_exit j = rjs_exit j.
-Proof.
-  intros j Hwf He. rewrite job_exit_characterised_lemma by exact Hwf.
-  unfold rjs_exit, rjs_inputs. rewrite (existsb_app rj_warn (rj_opt (rj_enc j))).
-  assert (E : existsb rj_warn (rj_opt (rj_enc j)) = false).
-  { destruct (rj_enc j) as [e|]; simpl; [rewrite (He e eq_refl)|]; reflexivity. }
-  rewrite E. reflexivity.
-Qed.
+(* the model meets the specification for every job (since /repo d4bc1464 without an exception for the
+   --copy-encryption role) *)
+Lemma job_exit_meets_spec_lemma : forall j : rj_job, rjs_wf j -> rj_exit j = rjs_exit j.
+Proof. intros j Hwf. rewrite job_exit_characterised_lemma by exact Hwf. reflexivity. Qed.
 
-(* damage_never_exit0 for jobs: whatever the reader detected in the main input or in a file named by --pages,
-   --overlay, --underlay or --copy-attachments-from - an exception or a warning - the job does not end with status
-   0, whatever the names of the files are and in whatever order they were given *)
+(* damage_never_exit0 for jobs: whatever the reader detected in any file the job reads - main input, --pages,
+   --overlay, --underlay, --copy-attachments-from, --copy-encryption -, an exception or a warning, the job does not
+   end with status 0, whatever the names of the files are and in whatever order they were given *)
 Lemma job_damage_never_exit0_lemma : forall (j : rj_job) (f : rj_file),
-  rjs_wf j -> In f (rj_attach j ++ rj_uo j ++ rj_pages j ++ rj_opt (rj_main j)) ->
+  rjs_wf j -> In f (rjs_inputs j) ->
   (rj_fatal f = true \/ rj_warn f = true) -> rj_exit j <> 0.
 Proof.
   intros j f Hwf Hin Hd. rewrite job_exit_characterised_lemma by exact Hwf.
   destruct (existsb rj_fatal (rjs_inputs j)) eqn:F; [discriminate|].
   destruct Hd as [Hd|Hd].
-  - assert (X : existsb rj_fatal (rjs_inputs j) = true).
-    { apply existsb_exists. exists f. split; [|exact Hd]. unfold rjs_inputs. apply in_app_iff. right. exact Hin. }
+  - assert (X : existsb rj_fatal (rjs_inputs j) = true) by (apply existsb_exists; exists f; split; assumption).
     congruence.
-  - assert (X : existsb rj_warn (rj_attach j ++ rj_uo j ++ rj_pages j ++ rj_opt (rj_main j)) = true).
-    { apply existsb_exists. exists f. split; assumption. }
+  - assert (X : existsb rj_warn (rjs_inputs j) = true) by (apply existsb_exists; exists f; split; assumption).
     rewrite X. discriminate.
 Qed.
 
@@ -195,17 +187,28 @@ Proof.
   reflexivity.
 Qed.
 
-(* Full strength - rj_exit j = rjs_exit j for every well-formed job - is FALSE on the faithful model and on qpdf
-   itself (known finding C08-F16): the warnings of the file given to --copy-encryption are not counted.  Main input
-   `m` read cleanly, --copy-encryption file `e` repaired with warnings: specification 3, model (and qpdf) 0; an
-   unreadable file in that role does end the job with 2. *)
-Lemma job_copy_encryption_silent_refuted_lemma :
+(* the warnings of the file given to --copy-encryption count (former finding C08-F16, repaired in /repo d4bc1464):
+   whatever else the job does, a --copy-encryption file that was repaired with warnings makes the status 3 unless some
+   file is unreadable (then 2) *)
+Lemma job_copy_encryption_counted_lemma : forall (j : rj_job) (e : rj_file),
+  rjs_wf j -> rj_enc j = Some e -> rj_warn e = true ->
+  rj_exit j = if existsb rj_fatal (rjs_inputs j) then 2 else 3.
+Proof.
+  intros j e Hwf He Hw. rewrite job_exit_characterised_lemma by exact Hwf.
+  assert (X : existsb rj_warn (rjs_inputs j) = true).
+  { apply existsb_exists. exists e. split; [|exact Hw]. unfold rjs_inputs. rewrite He. left. reflexivity. }
+  rewrite X. reflexivity.
+Qed.
+
+(* pinned regression on the witness of the former refutation (job_copy_encryption_silent_refuted: model and qpdf 0,
+   specification 3): main input `m` read cleanly, --copy-encryption file `e` repaired with warnings - status 3 now,
+   2 for an unreadable file in that role, and 3 as before for the same damaged file in any other role *)
+Lemma job_copy_encryption_regression_lemma :
   let m := mkRjFile [109] false false in
   let e := mkRjFile [101] false true in
   let j := mkRjJob (Some m) [] [] [] (Some e) in
-  rjs_wf j /\ rjs_exit j = 3 /\ rj_exit j = 0 /\
+  rjs_wf j /\ rjs_exit j = 3 /\ rj_exit j = 3 /\
   rj_exit (mkRjJob (Some m) [] [] [] (Some (mkRjFile [101] true false))) = 2 /\
-  (* the same damaged file in any other role is reported *)
   rj_exit (mkRjJob (Some m) [e] [] [] None) = 3 /\ rj_exit (mkRjJob (Some m) [] [e] [] None) = 3 /\
   rj_exit (mkRjJob (Some m) [] [] [e] None) = 3 /\ rj_exit (mkRjJob (Some e) [m] [] [] None) = 3.
 Proof.
@@ -309,18 +312,19 @@ Proof.
     + apply IH; assumption.
 Qed.
 
-(* without a trailer candidate in the file and without a trailer read before, the root of a reconstruction is the
-   fallback's answer over the reconstructed table *)
+(* without a trailer candidate in the file, without a trailer read before and without a cross-reference stream among
+   the objects found, the root of a reconstruction is the fallback's answer over the reconstructed table *)
 Lemma recon_root_without_trailer_lemma : forall (maxid : Z) (file : list N) (len : N) (deleted : list Z),
   rc_trailer_pos (rc_scan_events file) = [] ->
+  rc_xs_trailer file len (rc_recon_table maxid deleted (rc_scan_events file)) = None ->
   r_root (rc_reconstruct maxid file len deleted None) =
   rc_last_catalog file len (rc_recon_table maxid deleted (rc_scan_events file)) None.
 Proof.
-  intros maxid file len deleted H. unfold rc_reconstruct. rewrite H. simpl. reflexivity.
+  intros maxid file len deleted H Hx. unfold rc_reconstruct. rewrite H. simpl. rewrite Hx. reflexivity.
 Qed.
 
 (* "finds the catalog" when no trailer survives: over a written file whose bodies satisfy no_lookalike and whose
-   tail holds no trailer keyword, if the current catalog `cur` (last definition at `off`) has a higher id than every
+   tail holds no trailer keyword, with no cross-reference stream among its objects, if the current catalog `cur` (last definition at `off`) has a higher id than every
    other object whose last definition is a catalog - which is what an incremental update that takes a fresh object
    number for its catalog produces - the reconstruction's /Root is `cur` *)
 Lemma recon_finds_current_catalog_lemma :
@@ -328,6 +332,8 @@ Lemma recon_finds_current_catalog_lemma :
   rs_blank pre = true -> objs <> [] ->
   Forall (fun o => rs_wf_obj o = true) objs -> rs_tail_quiet tail = true ->
   rc_trailer_pos (rc_scan_events (rs_write pre objs tail)) = [] ->
+  rc_xs_trailer (rs_write pre objs tail) (rc_len (rs_write pre objs tail))
+                (rc_recon_table maxid [] (rc_scan_events (rs_write pre objs tail))) = None ->
   rs_valid_id maxid cur = true ->
   rs_last_def cur (rs_offsets (N.of_nat (length pre)) objs) None = Some off ->
   rc_is_catalog (rs_write pre objs tail) (rc_len (rs_write pre objs tail)) off = true ->
@@ -337,8 +343,8 @@ Lemma recon_finds_current_catalog_lemma :
      k = cur \/ rc_og_ltb k cur = true) ->
   r_root (rc_reconstruct maxid (rs_write pre objs tail) (rc_len (rs_write pre objs tail)) [] None) = Some cur.
 Proof.
-  intros pre objs tail maxid cur off Hb Hne Hwf Hq Htr Hv Hdef Hcat Hmax.
-  rewrite recon_root_without_trailer_lemma by exact Htr.
+  intros pre objs tail maxid cur off Hb Hne Hwf Hq Htr Hxs Hv Hdef Hcat Hmax.
+  rewrite recon_root_without_trailer_lemma by assumption.
   apply catalog_fallback_highest_lemma; [apply recon_table_sorted|].
   pose proof (recon_table_spec_lemma pre objs tail maxid) as Spec.
   split.
